@@ -120,6 +120,21 @@ def replay_coll(recs):
         if not np.allclose(val, again, equal_nan=True):
             out.append(dict(site=f"crossratio(points)/{recs[0]['r']['d']}D/collection/repeated-call", stratum="general",
                             case={"count": len(recs)}, expected="the same values", observed="the second call differs"))
+        # the same collections with two collection axes (2 x n/2): position (i, j) must hold the cross ratio of that element
+        n2 = (len(recs) // 2) * 2
+        if n2 >= 4:
+            grid = [g.PointCollection(np.asarray(c.array)[:n2].reshape((2, n2 // 2) + np.asarray(c.array).shape[1:])) for c in cols]
+            with np.errstate(all="ignore"):
+                gv = np.asarray(g.crossratio(*grid))
+            if gv.shape != (2, n2 // 2):
+                out.append(dict(site=f"crossratio(points)/{recs[0]['r']['d']}D/collection/two-axes", stratum="general", case={"count": n2},
+                                expected={"shape": [2, n2 // 2]}, observed={"shape": list(gv.shape)}))
+            else:
+                for i, r in enumerate(recs[:n2]):
+                    if not cr_ok(gv.reshape(-1)[i], r["r"]["cr"]):
+                        out.append(dict(site=f"crossratio(points)/{r['r']['d']}D/collection/two-axes", stratum=r["s"],
+                                        case={"pts": r["r"]["pts"], "position": [i // (n2 // 2), i % (n2 // 2)]}, expected=r["r"]["cr"], observed=str(gv.reshape(-1)[i])))
+                        break
         for i, r in enumerate(recs):
             if not cr_ok(val[i], r["r"]["cr"]):
                 out.append(dict(site=f"crossratio(points)/{r['r']['d']}D/collection", stratum=r["s"], case={"pts": r["r"]["pts"], "position": i},
